@@ -1,5 +1,6 @@
 pub mod c01;
 pub mod c05;
+pub mod c08;
 pub mod c09;
 pub mod c10;
 
@@ -9,6 +10,7 @@ pub fn run(ctx: &Ctx) -> i32 {
     match ctx.id.as_str() {
         "C01" => c01::run(ctx),
         "C05" => c05::run(ctx),
+        "C08" => c08::run(ctx),
         "C09" => c09::run(ctx),
         "C10" => c10::run(ctx),
         other => {
@@ -22,6 +24,7 @@ pub fn replay(id: &str, payload: &serde_json::Value) -> bool {
     match id {
         "C01" => c01::replay(payload),
         "C05" => c05::replay(payload),
+        "C08" => c08::replay(payload),
         "C09" => c09::replay(payload),
         "C10" => c10::replay(payload),
         other => {
